@@ -63,6 +63,8 @@ def atomic_violation(job, obs):
         return "an audio input file changed"
     if obs["leftovers"]:
         return f"work files remain: {obs['leftovers'][:3]}"
+    if obs.get("bystanders_disturbed"):
+        return f"an unrelated file next to the destination was changed or removed: {obs['bystanders_disturbed']}"
     if obs["dst"] == "broken":
         return "the destination is a partial / corrupt file"
     if obs["exc"] is None and obs["dst"] != "new" and job["ep"] in (3, 4):
